@@ -471,6 +471,39 @@ def run(check, repo: Repo) -> None:
     check.decide(ok, "C20-R3", "CustomNormalization._set_limits freezes the limits in a ManualInterval (vmin→0, vmax→1 for later calls)", "", mod.line(sl),
                  fail_detail="_set_limits does not freeze (vmin, vmax) from get_limits into ManualInterval")
 
+    # ---- R4b derived accessors of the (mutable) stretch/interval dataclasses are recomputed on every access ----------------------------------
+    n_acc = 0
+    for cname_, cls_ in classes.items():
+        if _is_frozen(cls_):
+            continue
+        for f_ in [x for x in cls_.body if isinstance(x, ast.FunctionDef)]:
+            decos = [dotted(d.func if isinstance(d, ast.Call) else d) or "" for d in f_.decorator_list]
+            if not decos:
+                continue
+            n_acc += 1
+            cached = [d for d in decos if d.split(".")[-1] in ("cached_property", "lru_cache", "cache")]
+            check.decide(not cached, "C20-R4", f"{cname_}.{f_.name}: not cached (the dataclass fields stay assignable)", str(decos), mod.line(f_),
+                         fail_detail=f"{cname_}.{f_.name} is decorated with {cached} on a non-frozen dataclass: after a parameter (power, a, …) is re-tuned the cached result still carries the "
+                                     f"old parameter — stretch(stretch.inverse(y)) ≠ y")
+    check.floor("decorated accessors of stretch/interval classes", n_acc, 6)
+
+    # ---- R7 optional limits / parameters are tested with `is None`: 0 is a legal limit --------------------------------------------------------
+    from ..domains.optnum import optional_numeric_names, truthiness_uses
+    n_opt = 0
+    for cname_, cls_ in classes.items():
+        for f_ in [x for x in cls_.body if isinstance(x, ast.FunctionDef)]:
+            ps_, fs_ = optional_numeric_names(cls_, f_)
+            used_ = {x.attr for x in ast.walk(f_) if isinstance(x, ast.Attribute) and isinstance(x.value, ast.Name) and x.value.id == "self" and x.attr in fs_}
+            if not ps_ and not used_:
+                continue
+            n_opt += len(ps_) + len(used_)
+            bad_ = truthiness_uses(cls_, f_)
+            check.decide(not bad_, "C20-R7", f"{cname_}.{f_.name}: optional numeric limits/parameters ({', '.join(sorted(ps_ | {'self.' + a for a in used_}))}) are tested with `is None`", "",
+                         mod.line(bad_[0][0]) if bad_ else mod.line(f_),
+                         fail_detail="; ".join(f"`{unparse(n_)[:60]}` uses {nm} as a truth value" for n_, nm in bad_[:3]) + ": a limit of exactly 0 is treated as 'not given' and replaced by "
+                                     "a data extreme — the requested lower/upper limit is not sent to 0/1")
+    check.floor("optional numeric limits examined", n_opt, 4)
+
     # ---- R6 configuration wiring: every CustomNormalization built from a resolved configuration receives field K as keyword K ----------------
     VIS = "quantem.core.visualization.visualization"
     vmod = repo.module(VIS)
